@@ -183,6 +183,9 @@ fn gen(rng: &mut Rng, n: usize, tier: &str) -> Vec<Req> {
     for sc in sr::overlay_member_cells() {
         out.push(Req::new(format!("c06.resolve {reps} {} {} {}", sc.ver, rng.below(8), sc.payload()), "overlaymember"));
     }
+    for sc in sr::same_sender_member_cells() {
+        out.push(Req::new(format!("c06.resolve {reps} {} {} {}", sc.ver, rng.below(8), sc.payload()), "samesender"));
+    }
     for i in 0..n / 2 {
         let wild = i % 4 == 3;
         let case = sr::gen_topo(rng, wild);
